@@ -552,3 +552,45 @@ def coq_crosscheck(tag, cases, model_outs, limit=60):
     if rc != 0:
         return len(ex), 'evaluation inside Coq disagrees with the extracted model: ' + ' '.join(err.decode(errors='replace').split())[:500]
     return len(ex), ''
+
+# ------------------------------------------------------------------ coverage-guided search (C01, thorough tier)
+def fuzz_search(tables, corpus, seconds, seed, jobs=8):
+    """Build harness/fuzz.c with clang/libFuzzer against the working tree and run it for `seconds`.
+    tables: list of '|C ...' strings; corpus: list of bytes.  Returns (scenario lines of crashing inputs, note)."""
+    clang = shutil.which('clang')
+    if not clang:
+        return [], 'coverage-guided search skipped: clang not found'
+    d = os.path.join(BUILD, 'fuzz')
+    shutil.rmtree(d, ignore_errors=True)
+    os.makedirs(os.path.join(d, 'corpus'))
+    os.makedirs(os.path.join(d, 'art'))
+    exe = os.path.join(d, 'fuzz')
+    cmd = [clang, '-fsanitize=fuzzer,address,undefined', '-fno-sanitize-recover=all', '-O1', '-g', '-DSCPI_PARSER_VERIF', '-w', '-Wl,--wrap=strndup',
+           '-I', os.path.join(REPO, 'libscpi/inc'), '-I', os.path.join(REPO, 'libscpi/src'), os.path.join(ROOT, 'harness/fuzz.c'), '-lm', '-o', exe]
+    rc, out, err, _ = sh(cmd, 300)
+    if rc != 0:
+        return [], 'coverage-guided search skipped: the libFuzzer harness does not build: ' + err.decode(errors='replace')[-300:]
+    tf = os.path.join(d, 'tables.txt')
+    open(tf, 'w').write('\n'.join(tables) + '\n')
+    for i, c in enumerate(corpus):
+        open(os.path.join(d, 'corpus', 'c%04d' % i), 'wb').write(c)
+    env = dict(os.environ, VERIF_FUZZ_TABLES=tf, ASAN_OPTIONS='detect_leaks=1:abort_on_error=0', UBSAN_OPTIONS='print_stacktrace=1')
+    env.pop('VERIF_FUZZ_PRINT', None)
+    cmd = [exe, '-max_total_time=%d' % seconds, '-max_len=1024', '-timeout=10', '-seed=%d' % seed, '-artifact_prefix=' + os.path.join(d, 'art') + '/',
+           '-jobs=%d' % jobs, '-workers=%d' % jobs, '-print_final_stats=1', os.path.join(d, 'corpus')]
+    p = subprocess.run(cmd, cwd=d, env=env, stdout=subprocess.PIPE, stderr=subprocess.STDOUT, timeout=seconds * 3 + 600)
+    execs = 0
+    for f in glob.glob(os.path.join(d, 'fuzz-*.log')):
+        m = re.findall(r'stat::number_of_executed_units:\s*(\d+)', open(f, errors='replace').read())
+        execs += sum(int(x) for x in m)
+    lines = []
+    arts = sorted(glob.glob(os.path.join(d, 'art', '*')))
+    env2 = dict(env, VERIF_FUZZ_PRINT='1')
+    for a in arts[:20]:
+        q = subprocess.run([exe, a], cwd=d, env=env2, stdout=subprocess.PIPE, stderr=subprocess.DEVNULL, timeout=60)
+        for l in q.stdout.decode(errors='replace').split('\n'):
+            if l.startswith('S '):
+                lines.append(l)
+                break
+    note = 'coverage-guided search (libFuzzer, %d s, %d jobs, seed %d): %d executions, %d artifacts (crash/leak/timeout inputs)' % (seconds, jobs, seed, execs, len(arts))
+    return lines, note
